@@ -19,7 +19,7 @@ Expected(c) ==
       [] c.k = "units" -> [id |-> c.id,
                            wave |-> [A \in WaveUnits |-> [B \in WaveUnits |-> WaveFac(A, B)]],
                            flux |-> [X \in FluxUnits |-> [Y \in FluxUnits |-> FluxFac(X, Y)]]]
-      [] c.k = "trapz" -> [id |-> c.id, val |-> Trapz(c.s, c.lo, c.hi), all |-> TrapzAll(c.s)]
+      [] c.k = "trapz" -> [id |-> c.id, val |-> Trapz(c.s, c.lo, c.hi), all |-> TrapzAll(c.s), exact |-> TrapzExact(c.s, c.lo, c.hi)]
       [] c.k = "bin" -> LET b == BinTrapz(c.s, c.c, c.ends, c.fill) IN
                         [id |-> c.id, bins |-> b, sum |-> SeqSum(b), span |-> Trapz(c.s, c.c[1], c.c[Len(c.c)])]
 Emit == i > 0 => PrintT(<<"EMIT", ToJson(Expected(Cases[i]))>>)
@@ -36,5 +36,7 @@ Theorems == i > 0 =>
             /\ WF(c.s)
             /\ \A k \in 1..Len(c.s.w) : REq(RAdd(Trapz(c.s, c.s.w[1], c.s.w[k]), Trapz(c.s, c.s.w[k], c.s.w[Len(c.s.w)])), TrapzAll(c.s))
             /\ REq(TrapzAll([c.s EXCEPT !.v = [k \in 1..Len(c.s.v) |-> RMul(R(3), c.s.v[k])]]), RMul(R(3), TrapzAll(c.s)))
+            \* for bounds at samples the two readings of the integral coincide
+            /\ \A a, b \in 1..Len(c.s.w) : a <= b => REq(TrapzExact(c.s, c.s.w[a], c.s.w[b]), Trapz(c.s, c.s.w[a], c.s.w[b]))
       [] OTHER -> TRUE
 =============================================================================
